@@ -55,6 +55,22 @@ pub enum Via {
     Original,
     Clone,
     CloneOnJoinedThread,
+    /// the failing call is made by a destructor while a USER panic unwinds the thread; the destructor
+    /// swallows the mock's panic, the outer panic is caught as well
+    DestructorDuringUnwinding,
+}
+
+struct CallsWhenDropped<'a> {
+    case: &'a TextCase,
+    u: &'a Unimock,
+    out: &'a std::cell::RefCell<Option<Result<(), String>>>,
+}
+
+impl Drop for CallsWhenDropped<'_> {
+    fn drop(&mut self) {
+        let r = catch(|| trigger(self.case, self.u));
+        *self.out.borrow_mut() = Some(r);
+    }
 }
 
 #[derive(Clone, Debug, PartialEq, Eq, Hash, Serialize, Deserialize)]
@@ -159,6 +175,20 @@ pub fn check(case: &TextCase, oracle: Oracle) -> Result<CaseInfo, String> {
             let case2 = case.clone();
             std::thread::spawn(move || trigger(&case2, &c)).join().map_err(payload_to_string)
         }
+        Via::DestructorDuringUnwinding => {
+            let out = std::cell::RefCell::new(None);
+            let outer = catch(|| {
+                let _guard = CallsWhenDropped { case, u: &original, out: &out };
+                panic!("outer user panic");
+            });
+            if outer.is_ok() {
+                return Err("HARNESS: the outer user panic did not happen".into());
+            }
+            match out.into_inner() {
+                Some(r) => r,
+                None => return Err("HARNESS: the destructor did not run".into()),
+            }
+        }
     };
     let msg = match r {
         Ok(()) => {
@@ -191,7 +221,8 @@ pub fn check(case: &TextCase, oracle: Oracle) -> Result<CaseInfo, String> {
         .class_if(non_ascii, "non-ASCII-argument")
         .class_if(longest >= 64, "argument>=64-bytes")
         .class_if(longest >= 200, "argument>=200-bytes")
-        .class_if(case.via != Via::Original, "through-a-clone")
+        .class_if(matches!(case.via, Via::Clone | Via::CloneOnJoinedThread), "through-a-clone")
+        .class_if(case.via == Via::DestructorDuringUnwinding, "raised-by-a-destructor-during-unwinding")
         .class_if(case.prior_error, "after-an-earlier-caught-mock-error")
         .class(match case.kind {
             Kind::NoMatchT | Kind::NoMatchTv | Kind::NoMatchOpt => "kind:no-matching-call-patterns",
@@ -220,7 +251,7 @@ fn string_strategy() -> impl Strategy<Value = String> {
 pub fn case_strategy() -> impl Strategy<Value = TextCase> {
     (
         0..KINDS.len(),
-        prop_oneof![Just(Via::Original), Just(Via::Clone), Just(Via::CloneOnJoinedThread)],
+        prop_oneof![Just(Via::Original), Just(Via::Clone), Just(Via::CloneOnJoinedThread), Just(Via::DestructorDuringUnwinding)],
         string_strategy(),
         any::<u8>(),
         vec(string_strategy(), 0..4),
@@ -230,7 +261,7 @@ pub fn case_strategy() -> impl Strategy<Value = TextCase> {
         .prop_map(|(k, via, s, n, v, c, prior_error)| TextCase { kind: KINDS[k], via, s, n, v, c, prior_error })
 }
 
-pub const RULE: &str = "text-arguments = every mock-induced error kind about a call whose arguments are generated Unicode strings (printable ASCII, multi-byte and combining characters, quotes and backslashes, control characters, an ASCII prefix of every length 0..140 and around 256 / 512 / 1024 / 4096 followed by multi-byte characters, runs of up to 700 two-byte characters, proptest's arbitrary strings), as &str, String, Vec<String>, Option<&str>, &[String] and char parameters, raised on the original, on a clone, or on a clone in a thread that is joined; non-trivial = a non-ASCII argument or an argument of >= 32 bytes";
+pub const RULE: &str = "text-arguments = every mock-induced error kind about a call whose arguments are generated Unicode strings (printable ASCII, multi-byte and combining characters, quotes and backslashes, control characters, an ASCII prefix of every length 0..140 and around 256 / 512 / 1024 / 4096 followed by multi-byte characters, runs of up to 700 two-byte characters, proptest's arbitrary strings), as &str, String, Vec<String>, Option<&str>, &[String] and char parameters, raised on the original, on a clone, on a clone in a thread that is joined, or by a destructor while a user panic unwinds (swallowed there); non-trivial = a non-ASCII argument or an argument of >= 32 bytes";
 
 #[derive(Serialize, Deserialize)]
 struct WorkerRequest {
